@@ -40,7 +40,8 @@ pub fn limit_shapes() -> Vec<(fn(i64) -> (String, i64), usize)> {
         (format!("functie d(n) {{ stel a = n; stel b = 1; als a <= 0 {{ antwoord 0 }} b + (0 + d(a - 1)) }} d({k})"), k)
     }
     fn s6(k: i64) -> (String, i64) {
-        (format!("functie d(n, x, y) {{ als n <= 0 {{ antwoord x + y }} lengte([1, d(n - 1, x, y)]) - 2 + d(0, x, y) + (0 * 1) }} d({k}, 3, 4)"), 7)
+        // (no heap values here: with a managed object alive every return runs a collection over the whole deep stack)
+        (format!("functie d(n, x, y) {{ als n <= 0 {{ antwoord x + y }} 1 + (2 + (3 + d(n - 1, x, y))) - 6 }} d({k}, 3, 4)"), 7)
     }
     fn s7(k: i64) -> (String, i64) {
         (format!("functie d(n) {{ stel a = 0; stel b = 0; stel c = 0; als n <= 0 {{ antwoord 0 }} 1 + (0 + (0 + d(n - 1))) }} d({k})"), k)
